@@ -385,6 +385,13 @@ def atoms(alpha, family="calc"):
                 # Q-factors over intervened variables
                 Q[A](B @ C, D),
                 Q[A @ (+C)](B),
+                # a product as an atom: one more operation makes it a denominator, the next one the summand of a Sum
+                P(B, C) * P(A | B),
+                # value-marked variables with several subscripts in the per-variable (@) form (probability whose
+                # variables do not share one world; Q-factor)
+                P((+A) @ (B, +C) | D),
+                P((-A) @ (C, D), (+B) @ C),
+                Q[A]((+B) @ (C, D)),
             ]
         return base
     raise ValueError(family)
